@@ -125,14 +125,20 @@ def bnfuse_case(rnd, events):
   # fused bias has to be the batch-norm algebra on the QUANTIZED bias
   lossy = usebias and rnd.random() < 0.5
   bq = "quantized_bits(5,2,1,alpha=1.0)" if lossy else wide
+  # the batch-norm layer's own quantizers: a really rounding beta quantizer (step 2^-3, beta on the 2^EFB grid), or an
+  # inverse quantizer (step 2^-1) on gamma*rsqrt(var+eps) - then gamma / variance quantizers have to be None
+  invq = scale and rnd.random() < 0.4
+  lossy_beta = center and rnd.random() < 0.5
+  betaq = "quantized_bits(7,3,1,alpha=1.0)" if lossy_beta else wide
   i = L.Input((4, 4, 2))
   nch = 2 if dw else 3
   if dw:
     conv = QDepthwiseConv2D((2, 2), depthwise_quantizer=wide, bias_quantizer=bq, use_bias=usebias, name="conv")
   else:
     conv = QConv2D(3, (2, 2), kernel_quantizer=wide, bias_quantizer=bq, use_bias=usebias, name="conv")
-  bn = QBatchNormalization(epsilon=EPS, center=center, scale=scale, gamma_quantizer=wide, beta_quantizer=wide,
-                           mean_quantizer=wide, variance_quantizer=None, name="bn")
+  bn = QBatchNormalization(epsilon=EPS, center=center, scale=scale, gamma_quantizer=None if invq else wide, beta_quantizer=betaq,
+                           mean_quantizer=wide, variance_quantizer=None,
+                           inverse_quantizer="quantized_bits(6,4,1,alpha=1.0)" if invq else None, name="bn")
   m = tf.keras.Model(i, bn(conv(i)))
   J = np.array([rnd.randint(0, 2) for _ in range(nch)])
   gam = rints(rnd, (nch,), 0, 4, EG) if scale else np.ones((nch,), np.float32)
@@ -145,15 +151,28 @@ def bnfuse_case(rnd, events):
   if usebias:
     ws[1] = (b + np.float32(2.0 ** (EB - 2))) if lossy else b         # a quarter step off the grid: rounds back to b
   conv.set_weights(ws)
+  # what a fresh quantizer makes of the batch-norm parameters (harness side; TLC gets the integer codes)
+  qbeta = np.asarray(Q.get_quantizer(betaq)(tf.constant(beta))) if center else beta
+  inv_exact = (gam * 2.0 ** (-J.astype(np.float64))).astype(np.float32)
+  qinv = np.asarray(Q.get_quantizer("quantized_bits(6,4,1,alpha=1.0)")(tf.constant(inv_exact))) if invq else inv_exact
+  bn_before = [w.copy() for w in bn.get_weights()]
   d = qutils.model_save_quantized_weights(m)
   ent = d["conv"]
   if not ent.get("enable_bn_fusing"):
     events.append({"kind": "bnfuse", "gam": [1], "J": [0], "b": [0], "mean": [0], "beta": [0], "inv": [999], "fb": [0],
-                   "note": "pair not detected"})
+                   "qinv": [0], "bnw_ok": 1, "note": "pair not detected"})
     return
+  # the fused batch-norm layer is exported like every other layer: its stored weights and its dictionary entry are
+  # the quantized parameters
+  names = [v.name.split("/")[-1].split(":")[0] for v in bn.weights]
+  want = {"beta": qbeta}
+  bnw_ok = int("bn" in d and all(np.array_equal(w, want.get(n, w0)) for n, w, w0 in zip(names, bn.get_weights(), bn_before)) and
+               all(np.array_equal(a, b_) for a, b_ in zip(d["bn"]["weights"], bn.get_weights())))
   events.append({"kind": "bnfuse", "dw": int(dw), "usebias": int(usebias), "lossy": int(lossy), "center": int(center), "scale": int(scale),
+                 "invq": int(invq), "lossy_beta": int(lossy_beta),
                  "gam": ints(gam, EG), "J": [int(v) for v in J], "b": ints(b, EB), "mean": ints(mean, EB),
-                 "beta": ints(beta, EFB), "inv": ints(np.broadcast_to(ent["bn_inv"], (nch,)), EG - 2),
+                 "beta": ints(qbeta, EFB), "inv": ints(np.broadcast_to(ent["bn_inv"], (nch,)), EG - 2),
+                 "qinv": ints(np.broadcast_to(qinv, (nch,)), EG - 2), "bnw_ok": bnw_ok,
                  "fb": ints(np.broadcast_to(ent["fused_bias"], (nch,)), EFB)})
 
 
@@ -180,7 +199,7 @@ def main():
   for ev in events:
     for k, v in (("w1", [[0, 0]]), ("qw", [[0, 0]]), ("hw", [[0, 0]]), ("sg", [[1, 0]]), ("sc", [[1, 0]]), ("qkind", "other"),
                  ("bits", 0), ("kn", 1), ("sgbad", 0), ("int", 0), ("qs", [[1, 0]]), ("indep", 0), ("frozen", 0), ("pred", 1), ("second", 1), ("gam", [0]), ("J", [0]),
-                 ("lossy", 0), ("spden", 0), ("zeros", 0), ("spz", 0), ("b", [0]), ("mean", [0]), ("beta", [0]), ("inv", [0]), ("fb", [0])):
+                 ("lossy", 0), ("qinv", [0]), ("bnw_ok", 1), ("spden", 0), ("zeros", 0), ("spz", 0), ("b", [0]), ("mean", [0]), ("beta", [0]), ("inv", [0]), ("fb", [0])):
       ev.setdefault(k, v)
   write_ndjson("%s.%d.ndjson" % (prefix, shard), events)
   json.dump(errors, open("%s.%d.err.json" % (prefix, shard), "w"))
